@@ -300,6 +300,12 @@ func cmdSession(args []string) error {
 				wg.Add(1)
 				go func(k int, r resolve.Resolver, rt resolve.VersionKey) {
 					defer wg.Done()
+					// a panic inside a concurrent call is an observation (the digest then differs from every baseline), not a dead harness
+					defer func() {
+						if p := recover(); p != nil {
+							digs[k] = fmt.Sprintf("PANIC in concurrent Resolve: %.120v", p)
+						}
+					}()
 					g, err := r.Resolve(ctx, rt)
 					digs[k] = graphDigest(g, err)
 				}(k, r, roots[call.Root-1])
